@@ -120,10 +120,19 @@ PROPS["C03"] = dict(
                "read_constraint_evaluations, substitutions that need the full verifier.",
     explanation=MIX)
 
+PROPS["C20"] = dict(
+    level="other", claimed=True,
+    level_text="Bounded stand-in only (native execution of the real functions against a naive reference written in the check): "
+               "every polynomial and batch-utility function agrees with its defining identity on the enumerated space. No "
+               "deductive contract: the bodies are iterator / closure chains over generic field elements, which the installed "
+               "Verus rejects, and equalities of field products are beyond CBMC.",
+    level_note="Bounded as stated in coverage.native_bounded_standins; nothing is proved for all inputs. The field operations "
+               "themselves are C07's / C08's.",
+    explanation=MIX)
+
 NOT_APPLICABLE.update({
     "C01": "whole-protocol completeness over all AIR programs: no per-function contract carries it (DESIGN.md 4.C01)",
     "C02": "cryptographic soundness is probabilistic and adversarial, not a safety property of any function (DESIGN.md 4.C02)",
     "C14": "neither Kani nor Verus can execute rayon; the suite is built without the `concurrent` feature (DESIGN.md 4.C14)",
     "C17": "needs polynomial-identity reasoning across evaluator, periodic table and boundary groups generic over a user Air (DESIGN.md 4.C17)",
-    "C20": "algebraic identities over symbolic field values: beyond the SAT back end even over GF(17); the bodies are iterator/closure chains Verus rejects (DESIGN.md 4.C20)",
 })
